@@ -46,7 +46,15 @@ def gen(rng: random.Random, tier: str, idx: int) -> dict:
             cyc = [{"timeout": rng.choice([0.05, 0.3, 1.0, 2.0, 30.0]), "hold": rng.choice([0.0, 0.02, 0.5, 3.0]),
                     "pre": rng.choice([0.0, 0.0, 0.01, 0.4])} for _ in range(rng.randint(1, 3))]
             acts.append({"name": f"c{i}", "proc": "p0" if same else f"p{i}", "cycles": cyc})
-        if not same and rng.random() < 0.4:
+        plan["sharing"] = rng.choice(["none", "none", "instance", "fork_copy"])
+        if plan["sharing"] == "instance":
+            for a_ in acts:
+                a_["proc"] = "p0"
+            tmo = rng.choice([0.3, 2.0, 30.0])
+            for a_ in acts:
+                for c_ in a_["cycles"]:
+                    c_["timeout"] = tmo
+        if plan["sharing"] == "none" and not same and rng.random() < 0.4:
             v = rng.randrange(n)
             plan["faults"].append({"kind": "crash", "actor": f"c{v}", "op": rng.choice(["sleep_hold", "unflock", "close"]),
                                    "nth": 1})
@@ -178,9 +186,26 @@ def execute(plan: dict, scratch: str, replay: Optional[dict] = None) -> dict:
         os.makedirs(w.root, exist_ok=True)
         path = os.path.join(w.root, ".locks", "x.lock")
         from datashard.file_lock import FileLock
-        for a in plan["actors"]:
-            sim.spawn(sim.proc(a["proc"]), a["name"],
-                      _cycle_body(sim, lambda: FileLock(path, 1.0), a["cycles"], ev, a["name"]))
+        import copy as _copy
+        sharing = plan.get("sharing", "none")
+        if sharing == "none":
+            for a in plan["actors"]:
+                sim.spawn(sim.proc(a["proc"]), a["name"],
+                          _cycle_body(sim, lambda: FileLock(path, 1.0), a["cycles"], ev, a["name"]))
+        else:
+            # "instance": threads of one process share one FileLock object. "fork_copy": every contender holds a
+            # COPY of a lock object that was used once before the fork - a forked child inherits the parent's
+            # descriptor table, i.e. the same open file descriptions, which is what a shallow copy in one
+            # interpreter gives.
+            def init():
+                parent = FileLock(path, 1.0)
+                parent.acquire()
+                parent.release()
+                for a in plan["actors"]:
+                    lk = parent if sharing == "instance" else _copy.copy(parent)
+                    sim.spawn(sim.proc(a["proc"]), a["name"],
+                              _cycle_body(sim, lambda lk=lk: lk, a["cycles"], ev, a["name"]))
+            sim.spawn(sim.proc("p0"), "init", init)
         ph.run()
         if sim.outcome == "ok":
             _check_intervals(sim, ev, V, poll=0.01 + 0.05, label="flock")
